@@ -17,7 +17,8 @@ Definition wsc (c : Z) : bool := (c =? 32) || (c =? 9) || (c =? 10) || (c =? 13)
 Inductive tok :=
   | TLB | TRB | TLP | TRP | TComma | TAssign | TEq | TWhen
   | THdr (s : ustring) | THdrQ (s : ustring) | TVar (s : ustring) | TRef (s : ustring) | TName (s : ustring)
-  | TStr (s : ustring) | TNum (neg : bool) (ip : ustring) (fp : option ustring) | TComment (s : ustring).
+  | TStr (s : ustring) | TNum (neg : bool) (ip : ustring) (fp : option ustring) | TComment (s : ustring)
+  | TRegex (s : ustring).                    (* /.../ : REGEX_INNER, the text between the slashes *)
 
 Fixpoint span (p : Z -> bool) (l : ustring) : ustring * ustring :=
   match l with c :: r => if p c then let (a, b) := span p r in (c :: a, b) else ([], l) | [] => ([], []) end.
@@ -29,6 +30,7 @@ Definition render_tok (t : tok) : ustring :=
   | TStr s => 34 :: s ++ [34]
   | TNum neg ip fp => (if neg then [45] else []) ++ ip ++ (match fp with Some f => 46 :: f | None => [] end)
   | TComment s => 126 :: s ++ [126]
+  | TRegex s => 47 :: s ++ [47]
   end.
 
 Definition nonempty (s : ustring) : bool := match s with [] => false | _ => true end.
@@ -47,6 +49,18 @@ Definition lex_number (neg : bool) (l : ustring) : option (tok * ustring) :=
 Definition lex_delimited (q : Z) (mk : ustring -> tok) (r : ustring) : option (tok * ustring) :=
   let (s, rest) := span (fun c => negb (c =? q)) r in
   match rest with c :: rest' => if c =? q then Some (mk s, rest') else None | [] => None end.
+
+(** REGEX_INNER /([^\/\\]|\\.)*/ : any character but slash and backslash, or a backslash and the character after it; the closing slash ends it *)
+Fixpoint lex_regex (esc : bool) (l : ustring) : option (ustring * ustring) :=
+  match l with
+  | [] => None
+  | c :: r =>
+      let keep := fun o : option (ustring * ustring) => match o with Some (s, rest) => Some (c :: s, rest) | None => None end in
+      if esc then keep (lex_regex false r)
+      else if c =? 47 then Some ([], r)
+      else if c =? 92 then keep (lex_regex true r)
+      else keep (lex_regex false r)
+  end.
 
 Definition lex_id (mk : ustring -> tok) (r : ustring) : option (tok * ustring) :=
   let (s, rest) := span idc r in if nonempty s then Some (mk s, rest) else None.
@@ -73,6 +87,7 @@ Definition lex1 (l : ustring) : option (tok * ustring) :=
       else if c =? 126 then lex_delimited 126 TComment r
       else if is_digit c then lex_number false l
       else if is_letter c then lex_id TName l
+      else if c =? 47 then (match lex_regex false r with Some (s, rest) => Some (TRegex s, rest) | None => None end)
       else None
   end.
 
@@ -90,7 +105,7 @@ Fixpoint lex (fuel : nat) (l : ustring) : option (list tok) :=
 
 (** * component trees *)
 Inductive arg :=
-  | ATermS (s : ustring) | ATermN (neg : bool) (ip : ustring) (fp : option ustring)
+  | ATermS (s : ustring) | ATermN (neg : bool) (ip : ustring) (fp : option ustring) | ATermR (s : ustring)
   | AVar (s : ustring) | AHdr (s : ustring) | AHdrQ (s : ustring) | ARef (s : ustring)
   | AFun (f : ustring) (args : list arg)
   | AEq (l r : arg).                          (* an equality used as an argument: left == right *)
@@ -104,7 +119,7 @@ Inductive comp :=
 (** tokens of a tree *)
 Fixpoint toks_arg (a : arg) : list tok :=
   match a with
-  | ATermS s => [TStr s] | ATermN n i f => [TNum n i f]
+  | ATermS s => [TStr s] | ATermN n i f => [TNum n i f] | ATermR s => [TRegex s]
   | AVar s => [TVar s] | AHdr s => [THdr s] | AHdrQ s => [THdrQ s] | ARef s => [TRef s]
   | AFun f args => TName f :: TLP :: (fix go (l : list arg) : list tok :=
                                         match l with [] => [] | [x] => toks_arg x | x :: r => toks_arg x ++ TComma :: go r end) args ++ [TRP]
@@ -141,6 +156,7 @@ Definition parse_atom (pa : list tok -> option (arg * list tok)) (k : nat) (ts :
   match ts with
   | TStr s :: r => Some (ATermS s, r)
   | TNum n i fp :: r => Some (ATermN n i fp, r)
+  | TRegex s :: r => Some (ATermR s, r)
   | TVar s :: r => Some (AVar s, r)
   | THdr s :: r => Some (AHdr s, r)
   | THdrQ s :: r => Some (AHdrQ s, r)
